@@ -119,14 +119,64 @@ def equivalent(e: ast.AST, spec: Callable[[Dict[str, bool]], bool], atoms: Seque
     for a in atoms:
         az.atom(a)
     f = az.compile(e)
-    if len(az.atoms) != len(atoms):
-        extra = az.atoms[len(atoms):]
-        raise AnalysisError(f"condition mentions unexpected atom(s) {extra}: {norm(e)}")
-    for vals in itertools.product([False, True], repeat=len(atoms)):
-        env = dict(zip(atoms, vals))
+    if not any(a in az.atoms[:len(atoms)] and _mentions(e, a) for a in atoms):
+        raise AnalysisError(f"condition mentions none of the expected atoms {list(atoms)}: {norm(e)}")
+    # atoms beyond the expected ones are free variables: the condition must agree with the
+    # specification whatever their value (an extra conjunct/disjunct that can change the outcome is a difference)
+    for vals in itertools.product([False, True], repeat=len(az.atoms)):
+        env = dict(zip(az.atoms, vals))
         if bool(f(vals)) != bool(spec(env)):
             return False, env
     return True, None
+
+
+def _mentions(e: ast.AST, atom: str) -> bool:
+    az = Atomizer()
+    az.compile(e)
+    return atom in az.atoms
+
+
+def flip_compare(e: ast.AST) -> str:
+    """normalised text of a comparison with the variable side first: `depth <= x` -> `x >= depth`"""
+    if isinstance(e, ast.Compare) and len(e.ops) == 1:
+        inv = {ast.Lt: ">", ast.LtE: ">=", ast.Gt: "<", ast.GtE: "<=", ast.Eq: "==", ast.NotEq: "!="}
+        op = type(e.ops[0])
+        if op in inv:
+            return f"{norm(e.comparators[0])} {inv[op]} {norm(e.left)}"
+    return norm(e)
+
+
+def resolve_const(mod, at: ast.AST, e: ast.AST, depth: int = 0):
+    """resolve an expression to a Python constant through module-level / enclosing single assignments
+    (`_MAX_BLOCKS = 20`); returns (True, value) or (False, None)"""
+    try:
+        return True, ast.literal_eval(e)
+    except Exception:
+        pass
+    if isinstance(e, ast.Name) and depth < 3:
+        cands = []
+        for n in ast.walk(mod.tree):
+            if isinstance(n, ast.Assign) and len(n.targets) == 1 and isinstance(n.targets[0], ast.Name) and n.targets[0].id == e.id:
+                cands.append(n.value)
+            elif isinstance(n, ast.AnnAssign) and isinstance(n.target, ast.Name) and n.target.id == e.id and n.value is not None:
+                cands.append(n.value)
+        if len(cands) == 1:
+            return resolve_const(mod, at, cands[0], depth + 1)
+    return False, None
+
+
+def resolve_expr(mod, e: ast.AST, depth: int = 0) -> ast.AST:
+    """follow a Name to the expression of its single module-level assignment (for tuples of type names etc.)"""
+    if isinstance(e, ast.Name) and depth < 3:
+        cands = []
+        for n in mod.tree.body:
+            if isinstance(n, ast.Assign) and len(n.targets) == 1 and isinstance(n.targets[0], ast.Name) and n.targets[0].id == e.id:
+                cands.append(n.value)
+            elif isinstance(n, ast.AnnAssign) and isinstance(n.target, ast.Name) and n.target.id == e.id and n.value is not None:
+                cands.append(n.value)
+        if len(cands) == 1:
+            return resolve_expr(mod, cands[0], depth + 1)
+    return e
 
 
 # --------------------------------------------------------------------- non-emptiness facts
